@@ -42,6 +42,9 @@ func ApplyLegacy(doc, patch string, neg bool, limit int64, indent string) Legacy
 			res.Out, res.Err = p.ApplyIndent([]byte(doc), indent)
 		}
 	})
+	if res.Panic == nil {
+		res.Panic = retainResult("legacy Apply", res.Out)
+	}
 	return res
 }
 
